@@ -120,9 +120,16 @@ def gen_cat_spec(seed):
         # an unknown group whose variable list is extended at a later restart
         spec['custom_group'] = ('mythorn-mygroup', ['alp', 'tau'])
         spec['vars'] = [v for v in spec['vars'] if v not in ('alp', 'tau')] + ['alp', 'tau']
+    change_once = bool(rng.random() < 0.35)
+    if change_once:
+        # out_every changed once (at restart 1) and then stayed: 2, 4, 4, ...
+        nres = max(nres, int(rng.integers(3, 6)))
+        vary = False
     for r in range(nres):
-        length = int(rng.integers(0, 4))
+        length = int(rng.integers(1 if change_once else 0, 4))
         bs = 2 ** (nlev - 1) * 4
+        if change_once and r == 1:
+            strides = {rl: (2 * v if 2 * v <= bs else v // 2 or 1) for rl, v in strides.items()}
         if vary and r and rng.random() < 0.5:
             # out_every changed in the parameter file of this restart
             strides = {rl: 2 ** (nlev - 1 - rl) * int(rng.choice([1, 2, 4])) for rl in range(nlev)}
